@@ -17,6 +17,7 @@ pub struct Case {
 
 pub struct Outcome {
     pub resp: String,
+    pub plan: String,
     pub dm: Option<DataMatrix>,
     pub panicked: bool,
 }
@@ -62,19 +63,37 @@ pub fn run_case(c: &Case) -> Outcome {
                 tr.max_live,
                 tr.chosen_cost_ceil_12.unwrap_or(0)
             );
-            Outcome { resp, dm: Some(dm), panicked: false }
+            Outcome { resp, plan: plan_str(&plan), dm: Some(dm), panicked: false }
         }
         Ok(Err(DataEncodingError::TooMuchOrIllegalData)) => {
-            Outcome { resp: "err:TooMuchOrIllegalData".into(), dm: None, panicked: false }
+            Outcome { resp: "err:TooMuchOrIllegalData".into(), plan: plan.as_ref().map(|_| plan_str(&plan)).unwrap_or("noplan".into()), dm: None, panicked: false }
         }
         Ok(Err(DataEncodingError::SymbolListEmpty)) => {
-            Outcome { resp: "err:SymbolListEmpty".into(), dm: None, panicked: false }
+            Outcome { resp: "err:SymbolListEmpty".into(), plan: "noplan".into(), dm: None, panicked: false }
         }
         Err(msg) => {
             let m: String = msg.chars().filter(|c| c.is_ascii_alphanumeric()).take(40).collect();
-            Outcome { resp: format!("panic-{}", m), dm: None, panicked: true }
+            Outcome { resp: format!("panic-{}", m), plan: plan.as_ref().map(|_| plan_str(&plan)).unwrap_or("noplan".into()), dm: None, panicked: true }
         }
     }
+}
+
+/// the encoder-model correspondence line for a case: prefix codewords (FNC1 / macro / ECI), body,
+/// the plan the implementation used, and the implementation's answer
+pub fn encrun_line(c: &Case, oc: &Outcome) -> Option<String> {
+    let (d, m, f) = (c.data.clone(), c.macros, c.fnc1);
+    let (mut pre, body) = guarded(move || vh::macro_prefix(&d, m, f)).ok()?;
+    if let Some(e) = c.eci {
+        // the designator as the crate writes it
+        let dm = guarded(move || DataMatrixBuilder::new().with_symbol_list(datamatrix::SymbolList::all()).encode_eci(b"", Some(e))).ok()?.ok()?;
+        let used = if e <= 126 { 2 } else if e <= 16382 { 3 } else { 4 };
+        pre.extend_from_slice(&dm.data_codewords()[..used]);
+    }
+    let ans = match &oc.dm {
+        Some(dm) => format!("ok:{}:{}", size_index(dm.size), hex(dm.data_codewords())),
+        None => if oc.panicked { "panic".to_string() } else { oc.resp.clone() },
+    };
+    Some(format!("M encrun {} {} {} {} => {}", mask_hex(c.mask), hex(&pre), hex(&body), oc.plan, ans))
 }
 
 pub fn case_line(flags: &str, c: &Case, resp: &str) -> String {
